@@ -565,6 +565,7 @@ func (e *Exec) Step(line string) {
 		line = strings.Join(t, " ")
 	}
 	fmt.Fprintln(e.w, "op "+line)
+	e.w.Flush() // (if the process dies during this call, the history so far is the failing input)
 	e.oracles(t)
 	armed := e.failNext >= 0
 	if armed {
